@@ -241,8 +241,21 @@ theorem compare_int_eq {a b : Int} : compare a b = .eq ↔ a = b := by
 
 theorem compare_nat_lt {a b : Nat} : compare a b = .lt ↔ a < b := Nat.compare_eq_lt
 
+/-- the comparator the regenerated arm table denotes -/
+theorem cmpScored_eq (a b : Scored) : cmpScored a b =
+    (match isNaN a.2, isNaN b.2 with
+     | true, true => compare a.1 b.1
+     | true, false => .gt
+     | false, true => .lt
+     | false, false => (compare (totalKey b.2) (totalKey a.2)).then (compare a.1 b.1)) := by
+  unfold cmpScored
+  rw [Gen.Bm25Order.gen_cmpArms]
+  cases isNaN a.2 <;> cases isNaN b.2 <;> rfl
+
 theorem ltScored_iff (a b : Scored) : ltScored a b = true ↔ lex3 (rankKey a) (rankKey b) := by
-  unfold ltScored cmpScored rankKey lex3
+  unfold ltScored
+  rw [cmpScored_eq]
+  unfold rankKey lex3
   cases ha : isNaN a.2 <;> cases hb : isNaN b.2 <;> simp [compare_nat_lt]
   · -- both ordinary
     cases hc : compare (totalKey b.2) (totalKey a.2) with
@@ -327,6 +340,123 @@ theorem sortScored_sorted (l : List Scored) : (sortScored l).Pairwise leScored :
   induction l with
   | nil => simp [sortScored]
   | cons x xs ih => unfold sortScored; exact insertSorted_sorted x _ ih
+
+theorem sortScored_of_sorted : ∀ (l : List Scored), l.Pairwise leScored → sortScored l = l
+  | [], _ => rfl
+  | x :: xs, h => by
+    have hx := List.pairwise_cons.1 h
+    unfold sortScored
+    rw [sortScored_of_sorted xs hx.2]
+    cases xs with
+    | nil => rfl
+    | cons y ys =>
+      unfold insertSorted
+      have : ltScored y x = false := hx.1 y List.mem_cons_self
+      simp [this]
+
+theorem ltScored_asymm {a b : Scored} (h1 : ltScored a b = true) (h2 : ltScored b a = true) : False := by
+  rw [ltScored_iff] at h1 h2
+  exact lex3_irrefl _ (lex3_trans h1 h2)
+
+/-- two strictly sorted arrangements of the same entries are the same list -/
+theorem sorted_perm_eq : ∀ (l₁ l₂ : List Scored), l₁.Perm l₂ →
+    l₁.Pairwise (fun a b => ltScored a b = true) → l₂.Pairwise (fun a b => ltScored a b = true) → l₁ = l₂
+  | [], l₂, hp, _, _ => by simpa using hp.symm.eq_nil
+  | x :: xs, [], hp, _, _ => by simpa using hp.eq_nil
+  | x :: xs, y :: ys, hp, h1, h2 => by
+    have hx := List.pairwise_cons.1 h1
+    have hy := List.pairwise_cons.1 h2
+    have hxy : x = y := by
+      apply Classical.byContradiction
+      intro hne
+      have hxm : x ∈ y :: ys := hp.subset List.mem_cons_self
+      have hym : y ∈ x :: xs := hp.symm.subset List.mem_cons_self
+      have hx' : x ∈ ys := by
+        rcases List.mem_cons.1 hxm with h | h
+        · exact absurd h hne
+        · exact h
+      have hy' : y ∈ xs := by
+        rcases List.mem_cons.1 hym with h | h
+        · exact absurd h.symm hne
+        · exact h
+      exact ltScored_asymm (hx.1 y hy') (hy.1 x hx')
+    subst hxy
+    rw [sorted_perm_eq xs ys (List.Perm.cons_inv hp) hx.2 hy.2]
+
+/-- with pairwise distinct ids, "sorted" is strict -/
+theorem strict_of_sorted {l : List Scored} (hs : l.Pairwise leScored) (hd : (l.map (·.1)).Nodup) :
+    l.Pairwise (fun a b => ltScored a b = true) := by
+  induction l with
+  | nil => simp
+  | cons x xs ih =>
+    have hx := List.pairwise_cons.1 hs
+    simp only [List.map_cons, List.nodup_cons] at hd
+    refine List.pairwise_cons.2 ⟨fun y hy => ?_, ih hx.2 hd.2⟩
+    have hne : x.1 ≠ y.1 := fun e => hd.1 (List.mem_map.2 ⟨y, hy, e.symm⟩)
+    have hle : ltScored y x = false := hx.1 y hy
+    have ht : lex3 (rankKey x) (rankKey y) ∨ lex3 (rankKey y) (rankKey x) :=
+      lex3_total (by rw [rankKey_id, rankKey_id]; exact hne)
+    rcases ht with h | h
+    · exact (ltScored_iff x y).2 h
+    · rw [(ltScored_iff y x).2 h] at hle; cases hle
+
+theorem mem_sortScored {x : Scored} {l : List Scored} : x ∈ sortScored l ↔ x ∈ l :=
+  (sortScored_perm l).mem_iff
+
+theorem length_sortScored (l : List Scored) : (sortScored l).length = l.length :=
+  (sortScored_perm l).length_eq
+
+/-- `select_nth_unstable_by(k-1)` may leave **any** arrangement `a` of the result map whose first `k`
+entries are all "not after" the rest; truncating to `k` and sorting gives the first `k` of the fully
+sorted map — whatever the arrangement was. -/
+theorem select_truncate_sort (l a : List Scored) (k : Nat) (hd : (l.map (·.1)).Nodup) (hp : a.Perm l)
+    (hsel : ∀ x ∈ a.take k, ∀ y ∈ a.drop k, leScored x y) :
+    sortScored (a.take k) = (sortScored l).take k := by
+  have hperm : (sortScored (a.take k) ++ sortScored (a.drop k)).Perm l := by
+    have h1 : (sortScored (a.take k) ++ sortScored (a.drop k)).Perm (a.take k ++ a.drop k) :=
+      List.Perm.append (sortScored_perm _) (sortScored_perm _)
+    rw [List.take_append_drop] at h1
+    exact h1.trans hp
+  have hsorted : (sortScored (a.take k) ++ sortScored (a.drop k)).Pairwise leScored := by
+    rw [List.pairwise_append]
+    exact ⟨sortScored_sorted _, sortScored_sorted _,
+      fun x hx y hy => hsel x (mem_sortScored.1 hx) y (mem_sortScored.1 hy)⟩
+  have hdr : ((sortScored (a.take k) ++ sortScored (a.drop k)).map (·.1)).Nodup :=
+    (hperm.map (·.1)).nodup_iff.2 hd
+  have hdl : ((sortScored l).map (·.1)).Nodup := ((sortScored_perm l).map (·.1)).nodup_iff.2 hd
+  have heq : sortScored (a.take k) ++ sortScored (a.drop k) = sortScored l :=
+    sorted_perm_eq _ _ (hperm.trans (sortScored_perm l).symm)
+      (strict_of_sorted hsorted hdr) (strict_of_sorted (sortScored_sorted l) hdl)
+  rw [← heq]
+  by_cases hk : k ≤ a.length
+  · have hlen : (sortScored (a.take k)).length = k := by
+      rw [length_sortScored, List.length_take]; omega
+    rw [List.take_append_of_le_length (by rw [hlen]; exact Nat.le_refl _)]
+    exact (List.take_of_length_le (by rw [hlen]; exact Nat.le_refl _)).symm
+  · have hdrop : a.drop k = [] := List.drop_eq_nil_of_le (by omega)
+    have hnil : sortScored ([] : List Scored) = [] := rfl
+    have hlen : (sortScored (a.take k)).length ≤ k := by
+      rw [length_sortScored, List.length_take]; exact Nat.min_le_left _ _
+    rw [hdrop, hnil, List.append_nil]
+    exact (List.take_of_length_le hlen).symm
+
+/-- `top_k_results` with the regenerated step list = the first `k` of the sorted result map -/
+theorem topK_eq (scored : List Scored) (k : Nat) :
+    topK scored k = if k = 0 then [] else (sortScored scored).take k := by
+  unfold topK
+  by_cases hk : k = 0
+  · simp [hk]
+  · simp only [hk, if_false]
+    rw [Gen.Bm25Order.gen_topKShape]
+    simp only [runTopK, runTopKStep]
+    by_cases hl : scored.length > k
+    · simp only [hl, if_true]
+      exact sortScored_of_sorted _ ((sortScored_sorted scored).sublist (List.take_sublist _ _))
+    · simp only [hl, if_false]
+      have h1 : scored.take k = scored := List.take_of_length_le (by omega)
+      have h2 : (sortScored scored).take k = sortScored scored :=
+        List.take_of_length_le (by rw [(sortScored_perm scored).length_eq]; omega)
+      rw [h1, h2]
 
 end Bm25
 end AndaVerif
